@@ -10,7 +10,10 @@ from collections import Counter
 from concurrent.futures import ProcessPoolExecutor, as_completed
 
 VERIF = os.path.dirname(os.path.dirname(os.path.abspath(__file__)))
-EVIDENCE_DIR = os.path.join(VERIF, "evidence")
+# VERIF_EVIDENCE_DIR: where evidence and newly found replays go when a run is NOT about the real tree
+# (sensitivity experiments with VERIF_REPO); registered commands never set it.
+_ALT = os.environ.get("VERIF_EVIDENCE_DIR")
+EVIDENCE_DIR = _ALT or os.path.join(VERIF, "evidence")
 REPLAY_DIR = os.path.join(VERIF, "replays")
 KNOWN_FILE = os.path.join(VERIF, "known_findings.txt")
 NCPU = max(2, os.cpu_count() or 2)
@@ -131,7 +134,7 @@ class Check:
     def write_replay(self, v):
         if v.get("path"):
             return v["path"]
-        d = os.path.join(REPLAY_DIR, self.pid, "found")
+        d = os.path.join(_ALT, "found", self.pid) if _ALT else os.path.join(REPLAY_DIR, self.pid, "found")
         os.makedirs(d, exist_ok=True)
         path = os.path.join(d, "viol-%s.json" % h(v["key"]))
         with open(path, "w") as f:
